@@ -28,7 +28,7 @@ Proof. intros H. apply (f_equal (@List.length nat)) in H. simpl in H. lia. Qed.
 
 (* the features of a non-root node and their balance *)
 Theorem balance t fo a u :
-  wfb t fo = true ->
+  wfbc t fo = true ->
   exists ft, full_node fo (a :: u) = (a :: u, List.length (genome_refs fo (a :: u)), Some ft) /\
     List.length (genome_refs fo (a :: u)) + ft_lost ft =
       List.length (genome_refs fo u) + ft_gain ft + ft_duplication ft /\
